@@ -26,7 +26,7 @@ CheckLine(r) ==
    /\ Ck("C06", r, "C06.meaning", (r.kind = "upd" /\ HasImpl(r) /\ WfUpdate(r.impl, r.asn4)) => NormUpdate(r.impl) = NormUpdate(r.ref), <<>>)
    /\ Ck("C08", r, "C08.wellformed", (r.kind = "upd" /\ HasImpl(r)) => WfUpdate(r.impl, r.asn4), <<>>)
    /\ Ck("C08", r, "C08.silent", r.kind = "upd" => ~r.none, <<>>)
-   /\ Ck("C09", r, "C09.decode", r.kind \in {"upd", "updvar"} => r.dec_ok, r.ddiff)
+   /\ Ck("C09", r, "C09.decode", r.kind \in {"upd", "updvar", "mpdec"} => r.dec_ok, r.ddiff)
    /\ Ck("C09", r, "C09.error", r.kind = "cor" => r.dec_err, <<>>)
 SessKinds == {"openrt", "notif", "rr", "ka"}
 WfSess(r) ==
@@ -83,7 +83,7 @@ CheckPure(r) ==
       /\ Ck("C06", r, "C06.pure", r.kind = "upd" => r.pure, r.impure)
       /\ Ck("C07", r, "C07.pure", r.kind = "mp" => r.pure, r.impure)
       /\ Ck("C08", r, "C08.pure", r.pure, r.impure)
-      /\ Ck("C09", r, "C09.pure", r.kind \in {"upd", "updvar", "cor", "updap"} => r.pure, r.impure)
+      /\ Ck("C09", r, "C09.pure", r.kind \in {"upd", "updvar", "cor", "updap", "mpdec"} => r.pure, r.impure)
       /\ Ck("C14", r, "C14.pure", r.kind \in SessKinds \cup {"open"} => r.pure, r.impure)
 Init == l = 1
 Next == l <= Len(Tr) /\ CheckPure(Tr[l]) /\ (IF Tr[l].kind = "mp" THEN CheckMp(Tr[l]) ELSE IF Tr[l].kind = "enc" THEN CheckEnc(Tr[l]) ELSE IF Tr[l].kind = "comm" THEN CheckComm(Tr[l]) ELSE IF Tr[l].kind = "updap" THEN CheckAP(Tr[l]) ELSE (CheckLine(Tr[l]) /\ CheckSess(Tr[l]))) /\ l' = l + 1
